@@ -3,7 +3,7 @@
 # Applies a seeded change to /repo's working tree, runs the named checks, prints one line per
 # check (DETECTED / missed), and always restores /repo afterwards.
 set -u
-PATCH="$1"; TIER="$2"; shift 2
+PATCH="$(realpath "$1")"; TIER="$2"; shift 2
 cd /verif
 if ! git -C /repo diff --quiet; then echo "try_patch: /repo has uncommitted changes, refusing"; exit 2; fi
 git -C /repo apply "$PATCH" || { echo "try_patch: patch does not apply"; exit 2; }
